@@ -488,6 +488,19 @@ class LitTable:
 def rewrite_string_literals(ftoks, lo, log, fn, lits=None):
     """N5: "lit" -> std::string(<id>, "lit"): CBMC resolves `"lit" + std::string` through a free operator+ wrongly; the id
     makes equal literal texts equal strings (model/include/string)"""
+    # adjacent string literals are one literal (translation phase 6)
+    merged = []
+    for t in ftoks:
+        if t.kind == 'str':
+            j = len(merged) - 1
+            while j >= 0 and merged[j].kind in ('ws', 'com'):
+                j -= 1
+            if j >= 0 and merged[j].kind == 'str':
+                merged[j] = Tok('str', merged[j].text[:-1] + t.text[1:], merged[j].pos)
+                del merged[j + 1:]
+                continue
+        merged.append(t)
+    ftoks = merged
     out = []
     for i, t in enumerate(ftoks):
         if i >= lo and t.kind == 'str':
